@@ -1,0 +1,26 @@
+//go:build verif
+
+package skiplist
+
+import (
+	"math/rand"
+
+	"github.com/B1NARY-GR0UP/originium/types"
+)
+
+// This file exists only with the "verif" build tag: read-only view of the towers and a
+// scriptable source for randomLevel, for the external verification harness.
+
+// VerifSetRandSource replaces the random source used by randomLevel.
+func (s *SkipList) VerifSetRandSource(src rand.Source) { s.rand = rand.New(src) }
+
+// VerifTowers returns, per level (0 = lowest), the entries linked at that level in list order.
+func (s *SkipList) VerifTowers() [][]types.Entry {
+	res := make([][]types.Entry, s.maxLevel)
+	for i := 0; i < s.maxLevel; i++ {
+		for curr := s.head.next[i]; curr != nil; curr = curr.next[i] {
+			res[i] = append(res[i], curr.Entry)
+		}
+	}
+	return res
+}
